@@ -90,7 +90,9 @@ def install():
         st["starting"].add(a[1].sid)
 
     def after_process(a, r, e):
-        pass
+        # the process of a simulator ended with an exception (e.g. one of the guards of sim_process, progress moving backwards)
+        if e is not None:
+            _log({"a": "Failed", "s": a[1].sid, "err": type(e).__name__})
 
     def after_adv(a, r, e):
         sim = a[0]
